@@ -176,6 +176,12 @@ func (v *env) stmts(list []ast.Stmt, ctx string) {
 			if ctx != "top" || len(s.Results) != 1 || str(s.Results[0]) != "nil" || st != list[len(list)-1] {
 				fail(v.fset, s, "return statement")
 			}
+		case *ast.DeferStmt:
+			// a deferred call runs when Write returns or panics, NEVER when the process dies: it is
+			// not a step of the crash model and must not be mistaken for one
+			fail(v.fset, s, "defer %s in Write (deferred calls do not run on process death; the crash model has no such step)", str(s.Call))
+		case *ast.GoStmt:
+			fail(v.fset, s, "go %s in Write (concurrent file-system work is outside the model)", str(s.Call))
 		default:
 			fail(v.fset, st, "statement of type %T", st)
 		}
@@ -261,6 +267,9 @@ func main() {
 	// have been classified: count os.* calls syntactically and compare
 	osCalls := 0
 	ast.Inspect(write.Body, func(n ast.Node) bool {
+		if fl, ok := n.(*ast.FuncLit); ok {
+			fail(fset, fl, "function literal in Write")
+		}
 		if c, ok := n.(*ast.CallExpr); ok {
 			if _, known := fnNames[str(c.Fun)]; known || (strings.HasPrefix(str(c.Fun), "os.") && str(c.Fun) != "os.IsNotExist") {
 				osCalls++
